@@ -13,7 +13,7 @@ import warnings
 
 import numpy as np
 
-from harness import engine
+from harness import engine, memo
 from harness.lattice import rot_from_spec
 
 PROP = "C08"
@@ -142,6 +142,7 @@ def run(rep: engine.Report, tier: str, seed: int):
     results = engine.parallel_replay("harness.props.c08", "replay", sel)
     engine.collect(rep, sel, results, key=lambda c: c["cfg"])
     rep.traces_validated = rep.evaluations
+    memo.run_family(rep, ["wedge_single_y", "wedge_single_x", "wedge_dual", "wedge_backend", "wedge_utils"])
     rep.samples = [dict(cfg=c["cfg"], mask=c["mask"]) for c in sel[:2]]
     rep.rule = (
         f"TLC enumerates all box shapes in [1..N]^3 (N=4 quick, 5 thorough) x 24 Rot24 + 6 rational orientations x tilt pairs "
